@@ -55,6 +55,20 @@ def build_harness(packages=None):
     lock = os.path.join(HARNESS, "Cargo.lock")
     if not os.path.exists(lock):
         shutil.copy("/repo/Cargo.lock", lock)
+    # make sure cargo notices every edit and every revert of /repo's working tree: touch the files that
+    # are modified now or were modified at the previous build (cargo's freshness test is mtime based)
+    try:
+        st = subprocess.run(["git", "-C", "/repo", "status", "--porcelain"], stdout=subprocess.PIPE, text=True).stdout
+        cur = sorted({l[3:].strip() for l in st.splitlines() if l.strip()})
+        stamp = os.path.join(workdir("stamps"), "repo-modified.json")
+        prev = json.load(open(stamp)) if os.path.exists(stamp) else []
+        for rel in set(cur) | set(prev):
+            f = os.path.join("/repo", rel)
+            if os.path.isfile(f):
+                os.utime(f)
+        json.dump(cur, open(stamp, "w"))
+    except Exception:
+        pass
     t0 = time.time()
     cmd = ["cargo", "build", "--offline"]
     for pkg in (packages or ["broker-drivers"]):
